@@ -357,16 +357,27 @@ func (m *machine) checkPrivFull(i int) {
 func (m *machine) checkSPrivFull(i int) {
 	e := m.sprv[i]
 	what := fmt.Sprintf("Schnorr private key #%d (d'=%x)", i, e.d)
-	if b := e.k.Bytes(); !bytes.Equal(b, ref.B32(e.d)) {
-		m.fatalf("%s: Bytes() = %x", what, b)
-	} else {
-		scramble(b)
+	// Bytes()/Scalar() export a private scalar of this key pair (d' or its y-normalised negation: the
+	// property does not fix which): +-d', and stable under caller mutation
+	okScalar := func(b []byte) bool {
+		v := ref.Int(b)
+		return len(b) == 32 && (v.Cmp(e.d) == 0 || v.Cmp(ref.NegM(e.d, ref.N)) == 0)
+	}
+	b := e.k.Bytes()
+	if !okScalar(b) {
+		m.fatalf("%s: Bytes() = %x is not a private scalar of this key pair", what, b)
+	}
+	keep := append([]byte(nil), b...)
+	scramble(b)
+	if again := e.k.Bytes(); !bytes.Equal(again, keep) {
+		m.fatalf("%s: Bytes() changed after the caller modified a returned slice: %x", what, again)
 	}
 	sc := e.k.Scalar()
-	if !bytes.Equal(sc.Bytes(), ref.B32(e.d)) {
-		m.fatalf("%s: Scalar() = %x", what, sc.Bytes())
+	if !okScalar(sc.Bytes()) {
+		m.fatalf("%s: Scalar() = %x is not a private scalar of this key pair", what, sc.Bytes())
 	}
 	sc.Negate(sc)
+	sc.Add(sc, sc)
 	pk := e.k.PublicKey()
 	if b := pk.Bytes(); !bytes.Equal(b, ref.B32(e.q.X)) {
 		m.fatalf("%s: public key bytes %x, model %x", what, b, e.q.X)
@@ -450,8 +461,8 @@ func (m *machine) invariant() {
 		m.checkPubKey(fmt.Sprintf("ECDSA public key #%d", i), e.k, e.q)
 	}
 	for i, e := range m.sprv {
-		if b := e.k.Bytes(); !bytes.Equal(b, ref.B32(e.d)) {
-			m.fatalf("Schnorr private key #%d: Bytes() = %x, model %x", i, b, e.d)
+		if v := ref.Int(e.k.Bytes()); v.Cmp(e.d) != 0 && v.Cmp(ref.NegM(e.d, ref.N)) != 0 {
+			m.fatalf("Schnorr private key #%d: Bytes() = %x, model +-%x", i, v, e.d)
 		}
 	}
 	// one full fingerprint per step, round robin over all key objects
@@ -1016,7 +1027,11 @@ func propMachine(t *rapid.T) {
 			e := m.sprv[i]
 			r, pr := m.sslot("r"), m.pslot("pr")
 			m.log("schnorr-out key%d -> scalar r%d, point r%d", i, r, pr)
-			m.scs[r], m.ms[r] = e.k.Scalar(), new(big.Int).Set(e.d)
+			m.scs[r] = e.k.Scalar()
+			m.ms[r] = lib.ScInt(m.scs[r]) // +-d' (checked by the key's fingerprint)
+			if m.ms[r].Cmp(e.d) != 0 && m.ms[r].Cmp(ref.NegM(e.d, ref.N)) != 0 {
+				m.fatalf("Schnorr Scalar() = %x is not a private scalar of the key pair (d'=%x)", m.ms[r], e.d)
+			}
 			even, _ := ref.LiftXEven(e.q.X)
 			m.pts[pr], m.pinit[pr], m.mp[pr] = e.k.PublicKey().Point(), true, even
 			m.mutations++
